@@ -677,7 +677,7 @@ pub fn check_c07(tier: Tier, seed: u64) -> i32 {
     check.run_random("end-to-end", cases, e2e_case, exec_e2e);
     crate::fuzzglue::replay_seed_corpus(&check, "splitter");
     if tier == Tier::Thorough {
-        crate::fuzzglue::campaign(&check, "splitter", 10_000_000, 256);
+        crate::fuzzglue::campaign(&check, "splitter", 400_000, 256);
     }
     check.finish()
 }
